@@ -317,7 +317,7 @@ class DynamicUpdateSlicePlugin(PrimitiveLeafPlugin):
                         ctx, "Sub", ref_dim, upd_dim, "dus_tensorscatter_max_start"
                     )
                     start_ge0 = _binary_scalar(
-                        ctx, "Max", start_norm, zero_i64, "dus_tensorscatter_start_ge0"
+                        ctx, "Max", seq_start, zero_i64, "dus_tensorscatter_start_ge0"
                     )
                     start_clamped_scalar = _binary_scalar(
                         ctx,
@@ -502,7 +502,7 @@ class DynamicUpdateSlicePlugin(PrimitiveLeafPlugin):
 
             max_start = _binary_scalar(ctx, "Sub", ref_dim, upd_dim, "dus_max_start")
             start_ge0 = _binary_scalar(
-                ctx, "Max", start_norm, zero_i64, "dus_start_ge0"
+                ctx, "Max", start_i64, zero_i64, "dus_start_ge0"
             )
             clamped = _binary_scalar(
                 ctx, "Min", start_ge0, max_start, "dus_start_clamped"
